@@ -546,7 +546,7 @@ pub fn h3_keys() -> Vec<String> {
 	k
 }
 
-fn arb_op(keys: Vec<String>, bias_grow: bool) -> BoxedStrategy<Op> {
+pub fn arb_op(keys: Vec<String>, bias_grow: bool) -> BoxedStrategy<Op> {
 	let nk = keys.len();
 	let key = (0..nk).prop_map(move |i| keys[i].clone()).boxed();
 	let mode = prop::sample::select(MODES.to_vec()).boxed();
